@@ -144,39 +144,65 @@ func runC15(r *Report) {
 			r.Check(stamped, "R2", key, in.Pos(), "contact happens locked, ready, after the attempt time was recorded", "the attempt time (tracker.time = time.Now()) is not recorded before the tracker is contacted: a failed attempt is retried at once")
 		}
 	}
-	// ready() clamps
+	// ready() waits for max(5 min, announced interval): the duration added to the last attempt time is at least five
+	// minutes on every path (interval analysis, through helpers), and the announced interval flows into it
 	r.Fn(ready)
-	var consts []int64
-	allInstrs(ready, func(in ssa.Instruction) {
-		for _, op := range in.Operands(nil) {
-			if op != nil && *op != nil {
-				if c, ok := constInt(*op); ok {
-					consts = append(consts, c)
-				}
-			}
-		}
-	})
-	has := func(v int64) bool {
-		for _, c := range consts {
-			if c == v {
-				return true
-			}
-		}
-		return false
-	}
 	const minute = int64(60e9)
-	r.Check(has(5*minute), "R2", "ready/min-5-minutes", ready.Pos(), "ready() clamps the interval to at least five minutes", "ready() no longer contains the five-minute minimum")
-	r.Check(has(30*minute), "R2", "ready/default-30-minutes", ready.Pos(), "ready() defaults to thirty minutes", "ready() no longer contains the thirty-minute default")
-	// the value compared with now derives from the clamped interval: Add's argument is a phi including the constants
-	clampFlows := false
-	allInstrs(ready, func(in ssa.Instruction) {
-		c, ok := in.(*ssa.Call)
-		if !ok || !isStdCall(c, "time", "Time", "Add") {
-			return
-		}
-		clampFlows = mentions(c.Call.Args[1], func(v ssa.Value) bool { k, ok := constInt(v); _, isC := v.(*ssa.Const); return ok && isC && k == 5*minute }, 0)
-	})
-	r.Check(clampFlows, "R2", "ready/clamp-reaches-comparison", ready.Pos(), "the clamped interval is what is added to the last attempt time", "the interval added to the last attempt time does not pass through the five-minute clamp")
+	intervalF := fieldLoadOf("base", "interval")
+	nAdd := 0
+	for _, f := range localCallees(p, ready, []string{"tracker"}) {
+		allInstrs(f, func(in ssa.Instruction) {
+			c, ok := in.(*ssa.Call)
+			if !ok || !isStdCall(c, "time", "Time", "Add") {
+				return
+			}
+			nAdd++
+			iv := (&IntEnv{}).At(c.Call.Args[1], c.Block())
+			r.Check(iv.Lo >= 5*minute, "R2", "ready/min-5-minutes", c.Pos(), "the delay added to the last attempt time is at least five minutes on every path ("+iv.String()+" ns)",
+				"the delay added to the last attempt time is only known to be in "+iv.String()+" ns: the five-minute minimum between two contacts of a tracker is not enforced on every path")
+			var flows func(v ssa.Value, d int) bool
+			flows = func(v ssa.Value, d int) bool {
+				if d > 4 {
+					return false
+				}
+				if mentions(v, intervalF, 0) {
+					return true
+				}
+				found := false
+				var walk func(x ssa.Value, dd int)
+				walk = func(x ssa.Value, dd int) {
+					if dd > 6 || found || x == nil {
+						return
+					}
+					switch y := x.(type) {
+					case *ssa.Call:
+						if h := y.Call.StaticCallee(); h != nil && h.Blocks != nil && relPkg(h) == "tracker" && !y.Call.IsInvoke() {
+							for _, ret := range returnsOf(h) {
+								for _, rv := range retResults(ret) {
+									if flows(rv, d+1) {
+										found = true
+									}
+								}
+							}
+						}
+					case *ssa.Phi:
+						for _, e := range y.Edges {
+							walk(e, dd+1)
+						}
+					case *ssa.Convert:
+						walk(y.X, dd+1)
+					case *ssa.BinOp:
+						walk(y.X, dd+1)
+						walk(y.Y, dd+1)
+					}
+				}
+				walk(v, 0)
+				return found
+			}
+			r.Check(flows(c.Call.Args[1], 0), "R2", "ready/announced-interval-used", c.Pos(), "the tracker's announced interval flows into the delay", "the delay added to the last attempt time does not depend on the tracker's announced interval: a tracker that asks for a longer interval is contacted too early")
+		})
+	}
+	r.Sentinel("R2.ready", nAdd, 1)
 	// torrent side: one ready tracker per round
 	if ta := p.Func("tor", "trackerAnnounce"); r.Anchor("R2", "tor.trackerAnnounce", ta != nil) {
 		r.Fn(ta)
